@@ -22,7 +22,7 @@ import tlz as toolz
 
 import dask
 from dask import config
-from dask._task_spec import GraphNode
+from dask._task_spec import GraphNode, Task, TaskRef
 from dask.base import clone_key, flatten, is_dask_collection
 from dask.core import keys_in_tasks, reverse_dict
 from dask.tokenize import normalize_token, tokenize
@@ -263,11 +263,25 @@ class Layer(Graph):
         for key, value in self.items():
             if key in keys:
                 key = clone_key(key, seed)
-                is_leaf = True
-                value = clone_value(value)
-                if bind_to is not None and is_leaf:
-                    value = (chunks.bind, value, bind_to)
-                    bound = True
+                if isinstance(value, GraphNode):
+                    # Task-spec nodes are not traversed by clone_value: rename the
+                    # node and the references to replaced keys via substitute
+                    subs = {
+                        dep: clone_key(dep, seed)
+                        for dep in value.dependencies
+                        if dep in keys
+                    }
+                    is_leaf = not subs
+                    value = value.substitute(subs, key=key)
+                    if bind_to is not None and is_leaf:
+                        value = Task(key, chunks.bind, value, TaskRef(bind_to))
+                        bound = True
+                else:
+                    is_leaf = True
+                    value = clone_value(value)
+                    if bind_to is not None and is_leaf:
+                        value = (chunks.bind, value, bind_to)
+                        bound = True
 
             dsk_new[key] = value
 
